@@ -107,5 +107,7 @@ PROPS = {
     },
     "C17": spec([reg("C17", 96000, 40, 4000000, 780)]),
     "C18": spec([reg("C18", 40000, 40, 2000000, 500),
-                 reg("list", 80000, 30, 4000000, 300)]),
+                 reg("list", 80000, 30, 4000000, 300),
+                 tw(6000, 20, 300000, 150)],
+                extra_assumptions=[TW_NOTE]),
 }
